@@ -47,6 +47,7 @@ def run(ctx: Ctx, rep: Report) -> None:
     rep.rule("C06-R2", "the modules that register the SNMP types are imported unconditionally from the package root", floor=2)
     rep.rule("C06-R3", "decoders read fields in the order and at the index / mask their encoders and the RFCs use", floor=10)
     rep.rule("C06-R4", "unsigned application types decode unsigned", floor=4)
+    rep.rule("C06-R5", "operations hand every response value (exception markers included) to the caller: complete, unfiltered, in order", floor=2)
     rep.assumptions += [
         "x690.decode / Integer / OctetString / ObjectIdentifier / Null implement BER for all values and definite length forms (numeric; analysed only structurally, see C20 for the TLV walker)",
     ]
@@ -164,6 +165,8 @@ def run(ctx: Ctx, rep: Report) -> None:
         m = index_map(ctx, fs, ctor[0], dataclass_fields(msg), [seq])
         ok = m.get("version") == f"{seq}[0]" and m.get("security_parameters") == f"{seq}[2].value"
         hdr_call = bind_call_args(ctor[0], dataclass_fields(msg), skip_self=False).get("header")
+        if isinstance(hdr_call, ast.Name):
+            hdr_call = ctx.defs(fs).single(hdr_call.id) or hdr_call
         hm = index_map(ctx, fs, hdr_call, dataclass_fields(header), [seq]) if isinstance(hdr_call, ast.Call) else {}
         okh = (
             hm.get("message_id") == f"{seq}[1][0].pythonize()"
@@ -236,8 +239,40 @@ def run(ctx: Ctx, rep: Report) -> None:
     else:
         rep.undecided("C06-R3", fd.site(), "one V3Flags construction", f"{len(fctor)}")
     md = msg.methods["decode"]
-    okm = any(isinstance(n, ast.IfExp) and "isinstance" in norm(n.test) and "[3]" in norm(n.test) and "OctetString" in norm(n.test) and norm(n.body) == "EncryptedMessage" and norm(n.orelse) == "PlainMessage" for n in own_nodes(md.node))
+    from ..engine.patterns import simulate
+
+    mcfg = ctx.cfg(md)
+    mddefs = ctx.defs(md)
+
+    def sel_env(flag: bool):
+        def env(expr: ast.expr) -> Optional[bool]:
+            if isinstance(expr, ast.Call) and norm(expr.func) == "isinstance" and "[3]" in norm(expr.args[0]) and norm(expr.args[1]) == "OctetString":
+                return flag
+            return None
+
+        return env
+
+    def chosen(flag: bool) -> List[str]:
+        out = []
+        for o in simulate(mcfg, sel_env(flag)):
+            if o.kind == "return" and isinstance(o.stmt, ast.Return) and o.stmt.value is not None:
+                exp = mddefs.expand(o.stmt.value)
+                # evaluate a conditional expression under the same assumption
+                class Pick(ast.NodeTransformer):
+                    def visit_IfExp(self, node: ast.IfExp) -> ast.AST:  # noqa: N802
+                        self.generic_visit(node)
+                        val = sel_env(flag)(node.test)
+                        return node.body if val is True else node.orelse if val is False else node
+
+                exp = Pick().visit(exp)
+                out.append(norm(exp))
+        return out
+
+    enc_sel, plain_sel = chosen(True), chosen(False)
+    okm = bool(enc_sel) and all(x.startswith("EncryptedMessage.from_sequence(") for x in enc_sel) and bool(plain_sel) and all(x.startswith("PlainMessage.from_sequence(") for x in plain_sel)
     rep.check(okm, "C06-R3", md.site(), "Message.decode picks EncryptedMessage exactly when element [3] is an OCTET STRING, else PlainMessage", key=f"{md.key}|class-selection")
+
+    check_value_delivery(ctx, rep)
 
     # ------------------------------------------------------------ R4
     integer_dr = ctx.u.cls("x690.types:Integer").methods.get("decode_raw")
@@ -255,6 +290,34 @@ def run(ctx: Ctx, rep: Report) -> None:
         dr = ctx.r.method(cls, "decode_raw")
         uses = dr is not None and any(isinstance(n, ast.keyword) and n.arg == "signed" and norm(n.value) == "cls.SIGNED" for n in ast.walk(dr.node))
         rep.check(signed is False and uses, "C06-R4", f"{cls.module.path}:{cls.node.lineno} ({cls.name})", f"{name} decodes with signed=cls.SIGNED and SIGNED evaluates to False", f"SIGNED={signed!r}, decode_raw={dr.key if dr else None}", key=f"{cls.key}|unsigned-decode")
+
+
+def check_value_delivery(ctx: Ctx, rep: Report) -> None:
+    from .c02 import FAITHFUL, Containers
+
+    client = ctx.client()
+    cont = Containers(ctx, client)
+    mg = client.methods.get("multiget")
+    if mg is not None:
+        cont.cuts = []
+        kind, why = cont.returned(mg)
+        rep.check(kind == FAITHFUL and not cont.cuts, "C06-R5", mg.site(), "multiget returns the value of every binding of the response (no filtering, no cut-off: noSuchObject / noSuchInstance / endOfMibView values are delivered as such)", f"kind {kind} {why}; cuts: {cont.cuts}", key=f"{mg.key}|values-dropped")
+    bg = client.methods.get("bulkget")
+    if bg is not None:
+        defs = ctx.defs(bg)
+        rets = [n for n in own_nodes(bg.node) if isinstance(n, ast.Return) and isinstance(n.value, ast.Call) and len(n.value.args) == 2]
+        ok = None
+        detail = ""
+        if len(rets) == 1:
+            sc = rets[0].value.args[0]
+            # dict(<scalars>) built from element 0 of the helper's result
+            exp = defs.expand(sc)
+            src = exp.args[0] if isinstance(exp, ast.Call) and isinstance(exp.func, ast.Name) and exp.func.id in ("dict", "OrderedDict") and exp.args else exp
+            cont.cuts = []
+            kind, why = cont.kind(bg, src) if not isinstance(src, ast.Name) else cont.kind(bg, src)
+            ok = kind == FAITHFUL and not cont.cuts
+            detail = f"scalars <- {norm(src)[:60]}: kind {kind} {why}; cuts: {cont.cuts}"
+        rep.check(ok, "C06-R5", bg.site(), "bulkget reports every non-repeater binding of the response as it was sent (an endOfMibView value of a scalar is a value, not a cut-off)", detail, key=f"{bg.key}|scalar-values-dropped")
 
 
 def import_reaches(ctx: Ctx, mod: Module, target: str, seen) -> Tuple[bool, str]:
